@@ -2,7 +2,7 @@ import MxModel.Proofs.Reach
 import MxModel.Props.C08
 import MxModel.Props.C01
 import MxModel.Proofs.ExecKeep
-import MxModel.Proofs.ExecInputs
+import MxModel.Proofs.ExecInputsRun
 import MxModel.Proofs.ExecCertExamples
 /-!
 # C06 – a value edit discards exactly its dependents; inputs persist
@@ -235,104 +235,27 @@ theorem input_survives_cell_create {s : St} (h : CI env lt s) (hr : RgNoInputs s
   have k := (kept_input_newCell (InpInv.of_ci h hr) c m hin).data m rfl
   ⟨k.1.trans hl, k.2.mpr hin⟩
 
-/-- the operations that may drop the input `m`: its own overwrite / clear, `clear_all` of its cells,
-and the edits accompanied by `clear_obj` of its cells (formula, flag, deletion) -/
-def Touches (m : Node) : C02.Op → Prop
-  | .setValue n _ => n = m
-  | .clearAt n => n = m
-  | .clearAll c => c = m.1
-  | .setFormula c _ => c = m.1
-  | .setCached c _ => c = m.1
-  | .delCell c => c = m.1
-  | _ => False
-
 /-- **An input is dropped only by its own clear / overwrite, by `clear_all` of its cells, or by a
-formula / flag edit or the deletion of its cells**: every OTHER operation of the thirteen-operation
-language – evaluations (returned or failed), assignments to and clears of other elements, `clear()`
-of any cells, reference edits, formula / flag edits, deletion and creation of other cells, limit
-changes, administrative calls – leaves it an input with its value.  (`h`, `hr`: true of every
-reachable state, `C02.reachable_ci`, `reachable_inputs_not_readers`.) -/
+formula / flag edit or the deletion of its cells** (`C02.Touches m op`: `setValue m`, `clearAt m`,
+`clearAll m.1`, `setFormula m.1`, `setCached m.1`, `delCell m.1`): every OTHER operation of the
+thirteen-operation language – evaluations (returned or failed), assignments to and clears of other
+elements, `clear()` of any cells, reference edits, formula / flag edits, deletion and creation of
+other cells, limit changes, administrative calls – leaves it an input with its value.  (`h`, `hr`:
+true of every reachable state, `C02.reachable_ci`, `reachable_inputs_not_readers`.) -/
 theorem input_dropped_only_by_own_ops (ho : StrictOrder lt) (hw : C02.WF env lt) {s : St} (h : CI env lt s)
-    (hr : RgNoInputs s) (op : C02.Op) (m : Node) (w : Val) (hop : ¬ Touches m op)
+    (hr : RgNoInputs s) (op : C02.Op) (m : Node) (w : Val) (hop : ¬ C02.Touches m op)
     (hin : m ∈ s.inputs) (hl : lookup s.data m = some w) :
-    lookup (C02.step (env, s) op).2.data m = some w ∧ m ∈ (C02.step (env, s) op).2.inputs := by
-  have hi := InpInv.of_ci h hr
-  have fin : ∀ {s' : St}, Kept s s' (.elem m) → lookup s'.data m = some w ∧ m ∈ s'.inputs :=
-    fun k => ⟨((k.data m rfl).1).trans hl, ((k.data m rfl).2).mpr hin⟩
-  have kcv : ∀ n ci, n ≠ m → Kept s (s.clearValueAt n ci) (.elem m) := fun n ci hn =>
-    kept_clearValueAt s n ci _ (fun _ _ => hi.not_reach _ m hin (by intro h'; cases h'; exact hn rfl))
-  cases op with
-  | eval n =>
-    simp only [C02.step]
-    split
-    · have hk := eval_keeps_held ho hw.ranked h.gi ⟨h.quiet.stack, h.quiet.idx⟩ n m w hl
-      exact ⟨hk.1, by rw [hk.2]; exact hin⟩
-    · exact ⟨hl, hin⟩
-  | setValue n v =>
-    have hn : n ≠ m := fun h' => hop h'
-    simp only [C02.step]
-    split
-    · obtain ⟨k1, k2⟩ := fin (kcv n true hn)
-      unfold St.setValue
-      split
-      · exact ⟨hl, hin⟩
-      · simp only []
-        generalize s.clearValueAt n true = s1 at k1 k2
-        have hd : (({ s1 with data := insert s1.data n v } : St).addNode (.elem n)).data = insert s1.data n v :=
-          (sameCache_addNode _ _).data
-        have hi' : (({ s1 with data := insert s1.data n v } : St).addNode (.elem n)).inputs = s1.inputs :=
-          (sameCache_addNode _ _).inputs
-        refine ⟨?_, ?_⟩
-        · show lookup (({ s1 with data := insert s1.data n v } : St).addNode (.elem n)).data m = some w
-          rw [hd, lookup_insert, if_neg hn]; exact k1
-        · simp only [hi']
-          split
-          · exact k2
-          · exact List.mem_append_left _ k2
-    · exact ⟨hl, hin⟩
-  | clearAt n => exact fin (kcv n true (fun h' => hop h'))
-  | clear c =>
-    refine fin (kept_clearAllValues s hi.edgeOK c false _ ?_)
-    intro n _ _ hni
-    refine hi.not_reach _ m hin ?_
-    intro h'; cases h'
-    rcases hni with hni | hni
-    · cases hni
-    · exact hni hin
-  | clearAll c =>
-    refine fin (kept_clearAllValues s hi.edgeOK c true _ ?_)
-    intro n hn _ _
-    refine hi.not_reach _ m hin ?_
-    intro h'; cases h'
-    exact hop hn.symm
-  | setRef r v => exact fin (kept_input_setRef hi r m hin)
-  | delRef r =>
-    simp only [C02.step]
-    split
-    · exact fin (kept_input_delRef hi r m hin)
-    · exact ⟨hl, hin⟩
-  | setFormula c f =>
-    simp only [C02.step]
-    split
-    · exact fin (kept_input_clearObj hi c m hin (fun h' => hop h'.symm))
-    · exact ⟨hl, hin⟩
-  | setCached c b =>
-    simp only [C02.step]
-    split
-    · exact ⟨hl, hin⟩
-    · exact fin (kept_input_clearObj hi c m hin (fun h' => hop h'.symm))
-  | delCell c =>
-    simp only [C02.step]
-    split
-    · exact fin (kept_input_delCell hi c m hin (fun h' => hop h'.symm))
-    · exact ⟨hl, hin⟩
-  | newCell c f b an =>
-    simp only [C02.step]
-    split
-    · exact ⟨hl, hin⟩
-    · exact fin (kept_input_newCell hi c m hin)
-  | maxdepth k => exact ⟨hl, hin⟩
-  | admin a => exact ⟨hl, hin⟩
+    lookup (C02.step (env, s) op).2.data m = some w ∧ m ∈ (C02.step (env, s) op).2.inputs :=
+  C02.step_keeps_input ho hw h hr op m w hop hin hl
+
+/-- **The inputs are a function of the edits**: after any operation, which elements hold an assigned
+value and which value is determined by the definitions, the inputs before and the operation
+(`C02.inpStep`) – no evaluation, no reference edit, no `clear()`, no edit of another cells changes
+them. -/
+theorem inputs_depend_on_edits_only (ho : StrictOrder lt) (hw : C02.WF env lt) {s : St} (h : CI env lt s)
+    (hr : RgNoInputs s) (op : C02.Op) :
+    inpOf (C02.step (env, s) op).2 = C02.inpStep env (inpOf s) op :=
+  C02.inpOf_step ho hw h hr op
 
 /-! ### "exactly the dependents": the graph against the calls the formulas made
 
